@@ -1545,3 +1545,46 @@ CASES += [
                     parsed >= 0,
                 ));"""),
 ]
+
+# ------------------------------------------------------------------ VO level arguments; MK composite keys
+CASES += [
+    dict(name="vo-level-arg-from-label", file=DN, rule="VO", props=["C06"], expect="level-arg:topdown_h",
+         old="""            DecisionResult::Unknown => {
+                let sub = self.topdown_h(cnf, sat, level + 1, cache);
+                let new_assgn = sat.difference_iter().filter(|x| x.label() != cur_v);
+                let r = self.conjoin_implied(new_assgn, sub);
+                sat.pop();
+                r
+            }
+        };
+        let low_bdd""",
+         new="""            DecisionResult::Unknown => {
+                let sub = self.topdown_h(cnf, sat, cur_v.value_usize() + 1, cache);
+                let new_assgn = sat.difference_iter().filter(|x| x.label() != cur_v);
+                let r = self.conjoin_implied(new_assgn, sub);
+                sat.pop();
+                r
+            }
+        };
+        let low_bdd"""),
+    dict(name="vo-level-arg-hoisted-ok", file=DN, rule="VO", props=["C06"], expect=None,
+         old="""            DecisionResult::Unknown => {
+                let sub = self.topdown_h(cnf, sat, level + 1, cache);
+                let new_assgn = sat.difference_iter().filter(|x| x.label() != cur_v);
+                let r = self.conjoin_implied(new_assgn, sub);
+                sat.pop();
+                r
+            }
+        };
+        let low_bdd""",
+         new="""            DecisionResult::Unknown => {
+                let next_level = 1 + level;
+                let sub = self.topdown_h(cnf, sat, next_level, cache);
+                let new_assgn = sat.difference_iter().filter(|x| x.label() != cur_v);
+                let r = self.conjoin_implied(new_assgn, sub);
+                sat.pop();
+                r
+            }
+        };
+        let low_bdd"""),
+]
